@@ -366,6 +366,14 @@ fn run_nd<T: Fl>(c: &NCase, lx: &mut Local) {
             }
             (a, b) => lx.fail("C06/axis-failed", || format!("i64 axis forms failed: {:?} / {:?} on {:?}", a.map(|r| r.map(|_| ())), b.map(|r| r.map(|_| ())), c)),
         }
+        // integer mean of the whole n-D array: exact sum, then the type's own division (no per-lane rounding)
+        match guarded(|| SummaryStatisticsExt::mean(&vdi)) {
+            Ok(Ok(g)) => {
+                let es: i64 = di.iter().sum();
+                lx.check(g == es / n as i64, "C06/int-mean-nd", || format!("i64 mean of the n-D array = {}, expected {} / {} = {}; data {:?}; {:?}", g, es, n, es / n as i64, di, c));
+            }
+            other => lx.fail("C06/mean-failed", || format!("i64 n-D mean: {:?} on {:?}", other, c)),
+        }
         hash_of(&obs)
     });
     let _ = MultiInputError::EmptyInput;
